@@ -40,7 +40,7 @@ CasesOf(e) ==
 
 \* C06: documents with two or three recoverable problems of different classes on known lines
 FaultClasses == {"unknown", "toomany", "strforid", "badident", "toonew_block", "toonew_enum", "wrongend",
-                 "trailing", "badversion", "deprecated", "norepeated"}
+                 "trailing", "badversion", "deprecated", "norepeated", "badident_later", "longstr_later"}
 MultiCases == {[k |-> "multi", faults |-> F] : F \in {G \in SUBSET FaultClasses : Cardinality(G) \in {2, 3}}}
 \* C07: an unknown element between the sub-elements of every block that admits optional sub-elements
 Payloads == {"kw0", "kw_num", "kw_str_ident", "kw3", "blk_empty", "blk_scalars", "blk_nested1", "blk_nested2",
